@@ -12,7 +12,7 @@ import json
 from typing import Any, Dict, List, Tuple
 
 from .. import core
-from ..core import Check, exc_family, show, tlc, untag, untext
+from ..core import Check, canon, exc_family, show, tag, tlc, untag, untext
 
 CFG = """CONSTANTS Universe = "{universe}"
 INIT Init
@@ -118,6 +118,22 @@ def observe(rec: Dict[str, Any], ue: bool) -> List[Tuple[str, str]]:
         return out
     judge("JSONPointer.resolve", lambda: p.resolve(doc))
     judge("resolve(default)", lambda: p.resolve(doc, default=SENTINEL), default=True)
+    if exp_ok is not None:
+        # the document given as JSON text, resolved, the result edited by the caller, resolved again: the text still means the same document
+        try:
+            text_doc = json.dumps(doc)
+            first = jsonpath.pointer.resolve(txt, text_doc, default=SENTINEL, unicode_escape=ue)
+            if isinstance(first, list):
+                first.append("edited-by-caller")
+            elif isinstance(first, dict):
+                first["edited-by-caller"] = True
+            again = jsonpath.pointer.resolve(txt, text_doc, default=SENTINEL, unicode_escape=ue)
+            if exp_ok and (again is SENTINEL or canon(tag(again)) != canon(tag(node))):
+                out.append(("pointer.resolve(json-text, again)", "stale-or-wrong-node"))
+            elif not exp_ok and again is not SENTINEL:
+                out.append(("pointer.resolve(json-text, again)", "yielded-a-value"))
+        except BaseException as e:  # noqa: BLE001
+            out.append(("pointer.resolve(json-text)", "raised-" + exc_family(e) + ":" + type(e).__name__))
     if "toks" in rec:
         # the same pointer given as its reference tokens (strings): built from parts, and handed to the module-level resolve
         toks = [untext(t) for t in rec["toks"]]
